@@ -106,27 +106,28 @@ impl Step {
     }
 }
 
+/// Everything the oracles found wrong at one step. Several oracles are
+/// evaluated at every step; each finding's class prefix names the property it
+/// belongs to (admit: C19, inv: C20, custody: C21, budget: C22).
 #[derive(Clone, Debug, Serialize, Deserialize)]
 pub struct Violation {
-    pub property: String,
-    pub class: String,
     pub at_step: usize,
-    pub detail: String,
+    /// (class, detail)
+    pub findings: Vec<(String, String)>,
+}
+
+impl Violation {
+    /// First finding whose class belongs to `prefix`.
+    pub fn for_prefix(&self, prefix: &str) -> Option<&(String, String)> {
+        self.findings.iter().find(|(c, _)| c.starts_with(prefix))
+    }
+    pub fn classes(&self) -> Vec<String> {
+        self.findings.iter().map(|(c, _)| c.clone()).collect()
+    }
 }
 
 fn viol(class: &str, at: usize, detail: String) -> Violation {
-    let property = if class.starts_with("admit:") {
-        "C19"
-    } else if class.starts_with("inv:") {
-        "C20"
-    } else if class.starts_with("custody:") {
-        "C21"
-    } else if class.starts_with("budget:") {
-        "C22"
-    } else {
-        "??"
-    };
-    Violation { property: property.into(), class: class.into(), at_step: at, detail }
+    Violation { at_step: at, findings: vec![(class.into(), detail)] }
 }
 
 /// What the service simulation learns from a step.
@@ -272,16 +273,19 @@ impl<'a, B: Backend> Exec<'a, B> {
             self.model.buckets.len() >= self.model.limits.max_buckets,
             self.model.verifies >= self.model.limits.max_verifies
         );
+        let mut findings: Vec<(String, String)> = vec![];
         let out = match step {
             Step::NewPool { .. } => {
-                self.check_budget_history(&self.pushes, self.params.max_verifies, self.params.window_ns)?;
+                if let Err(v) = self.check_budget_history(&self.pushes, self.params.max_verifies, self.params.window_ns) {
+                    findings.extend(v.findings);
+                }
                 self.all_pushes.append(&mut self.pushes);
                 self.be.restart(&self.params);
                 self.model = Model::new(self.params.n, self.params.batch, self.params.limits(), t);
                 self.probes.inc("miner_restart");
                 Outcome::None
             }
-            Step::Push { proof, mutation, stall_ns, .. } => self.do_push(at, t, *proof, mutation.as_ref(), *stall_ns)?,
+            Step::Push { proof, mutation, stall_ns, .. } => self.do_push(&mut findings, t, *proof, mutation.as_ref(), *stall_ns),
             Step::EvictSettled { nullifiers, .. } => {
                 let set: BTreeSet<BytesDigest> = nullifiers.iter().map(digest4).collect();
                 let targets = self.model.settled_targets(&set);
@@ -290,7 +294,7 @@ impl<'a, B: Backend> Exec<'a, B> {
                 let got = self.be.evict_settled(&hs);
                 self.model.remove(&targets);
                 if got != targets.len() {
-                    return Err(viol("custody:evict-settled-count", at, format!("returned {got}, {} proofs carry a settled nullifier", targets.len())));
+                    findings.push(("custody:evict-settled-count".into(), format!("returned {got}, {} proofs carry a settled nullifier", targets.len())));
                 }
                 if !targets.is_empty() {
                     self.probes.inc("settlement_evicted_some");
@@ -312,7 +316,7 @@ impl<'a, B: Backend> Exec<'a, B> {
                 let got = self.be.evict_older_than(Duration::from_nanos(*max_age_ns));
                 self.model.remove(&targets);
                 if got != targets.len() {
-                    return Err(viol("custody:evict-older-count", at, format!("returned {got}, {} proofs are older than the cutoff", targets.len())));
+                    findings.push(("custody:evict-older-count".into(), format!("returned {got}, {} proofs are older than the cutoff", targets.len())));
                 }
                 if !targets.is_empty() {
                     self.probes.inc("expiry_evicted_some");
@@ -334,7 +338,7 @@ impl<'a, B: Backend> Exec<'a, B> {
                     }
                     (Some(ids), Some(proofs)) => {
                         if ids.len() != proofs.len() || ids.iter().zip(proofs).any(|(i, p)| &self.messages[*i] != p) {
-                            return Err(viol("custody:snapshot-content", at, format!("snapshot returned {} proofs, expected the oldest {} of the bucket in admission order", proofs.len(), ids.len())));
+                            findings.push(("custody:snapshot-content".into(), format!("snapshot returned {} proofs, expected the oldest {} of the bucket in admission order", proofs.len(), ids.len())));
                         }
                         let b = self.model.buckets.get_mut(&k).unwrap();
                         if b.last_snapshot.is_some() {
@@ -349,12 +353,12 @@ impl<'a, B: Backend> Exec<'a, B> {
                         let pre = wormhole_aggregator::public_batch::prover::lib::verif_preflight(proofs, self.model.batch, self.be.verifier());
                         clock::set(t);
                         if let Err(e) = pre {
-                            return Err(viol("custody:snapshot-preflight", at, format!("preflight rejected a snapshot of {} proofs: {e:#}", proofs.len())));
+                            findings.push(("custody:snapshot-preflight".into(), format!("preflight rejected a snapshot of {} proofs: {e:#}", proofs.len())));
                         }
                         self.probes.inc("snapshot_preflight_ok");
                     }
-                    (None, Some(p)) => return Err(viol("custody:snapshot-content", at, format!("snapshot of an absent bucket returned {} proofs", p.len()))),
-                    (Some(ids), None) => return Err(viol("custody:snapshot-content", at, format!("snapshot of a bucket with {} proofs returned nothing", ids.len()))),
+                    (None, Some(p)) => findings.push(("custody:snapshot-content".into(), format!("snapshot of an absent bucket returned {} proofs", p.len()))),
+                    (Some(ids), None) => findings.push(("custody:snapshot-content".into(), format!("snapshot of a bucket with {} proofs returned nothing", ids.len()))),
                 }
                 Outcome::Snapshot(expect)
             }
@@ -364,7 +368,7 @@ impl<'a, B: Backend> Exec<'a, B> {
                 let got = self.be.remove_bucket(&k);
                 self.model.buckets.remove(&k);
                 if expect.len() != got.len() || expect.iter().zip(&got).any(|(i, p)| &self.messages[*i] != p) {
-                    return Err(viol("custody:remove-bucket-return", at, format!("remove_bucket returned {} proofs, bucket held {}", got.len(), expect.len())));
+                    findings.push(("custody:remove-bucket-return".into(), format!("remove_bucket returned {} proofs, bucket held {}", got.len(), expect.len())));
                 }
                 if expect.is_empty() {
                     self.probes.inc("remove_absent_bucket");
@@ -378,8 +382,19 @@ impl<'a, B: Backend> Exec<'a, B> {
 
         // ---- after every operation ----
         let after = clock::now();
-        self.check_state(at, step, &out, t, after)?;
-        let stats = self.check_invariants(at)?;
+        if let Err(v) = self.check_state(at, step, &out, t, after) {
+            findings.extend(v.findings);
+        }
+        let stats = match self.check_invariants(at) {
+            Ok(rows) => rows,
+            Err(v) => {
+                findings.extend(v.findings);
+                vec![]
+            }
+        };
+        if !findings.is_empty() {
+            return Err(Violation { at_step: at, findings });
+        }
         let out = if let Step::Stats { .. } = step { Outcome::Stats(stats) } else { out };
 
         self.states.insert(self.state_hash(after));
@@ -398,7 +413,7 @@ impl<'a, B: Backend> Exec<'a, B> {
         Ok(out)
     }
 
-    fn do_push(&mut self, at: usize, t: u64, proof: usize, mutation: Option<&Mutation>, stall_ns: u64) -> Result<Outcome, Violation> {
+    fn do_push(&mut self, findings: &mut Vec<(String, String)>, t: u64, proof: usize, mutation: Option<&Mutation>, stall_ns: u64) -> Outcome {
         let base_proof = self.be.corpus(proof).clone();
         let msg = match mutation {
             None => base_proof,
@@ -406,7 +421,7 @@ impl<'a, B: Backend> Exec<'a, B> {
                 Some(p) => p,
                 None => {
                     self.probes.inc("msg_undeserialisable_dropped");
-                    return Ok(Outcome::Dropped);
+                    return Outcome::Dropped;
                 }
             },
         };
@@ -440,26 +455,29 @@ impl<'a, B: Backend> Exec<'a, B> {
         let d_cnt = dump.verifies_in_window;
         drop(dump);
         let prev_ws = self.model.window_start;
+        let prev_cnt = self.model.verifies;
         let in_span = d_ws >= t && d_ws <= t_ret;
-        let mut restarted = false;
-        if decision.reaches_budget() {
-            if elapsed {
-                // mandatory restart; the instant inside the call span is the
-                // implementation's choice (a wrong value is caught by check_state)
-                self.model.window_start = if in_span { d_ws } else { t };
-                self.model.verifies = 0;
-                restarted = true;
+        // C22 transition check, stated on what was observed (verifier calls,
+        // budget state before and after), independent of the admission rules:
+        // the counter moves by exactly the number of verifications performed,
+        // and a new window begins only at a push at least one full window
+        // after the previous start.
+        let restarted = d_ws != prev_ws;
+        if restarted {
+            if !elapsed {
+                findings.push(("budget:early-restart".into(), format!("window restarted at {t} although it began at {prev_ws} and lasts {}", self.model.limits.window_ns)));
+            } else if !in_span {
+                findings.push(("budget:restart-instant".into(), format!("new window start {d_ws} lies outside the push's span [{t}, {t_ret}]")));
             }
-            if decision != Decision::Budget {
-                self.model.verifies += 1;
+            if d_cnt as u64 != dv {
+                findings.push(("budget:counter-state".into(), format!("after a window restart the counter is {d_cnt}, the push performed {dv} verifications")));
             }
-        } else if elapsed && d_ws != prev_ws && in_span && d_cnt == 0 {
-            // optional eager restart at a push rejected before the budget test:
-            // a full window has elapsed, so the property allows it
-            self.model.window_start = d_ws;
-            self.model.verifies = 0;
-            restarted = true;
+        } else if d_cnt as u64 != prev_cnt as u64 + dv {
+            findings.push(("budget:counter-state".into(), format!("counter went from {prev_cnt} to {d_cnt} at a push that performed {dv} verifications")));
         }
+        // the model adopts the implementation's budget state (any illegal move was recorded above)
+        self.model.window_start = d_ws;
+        self.model.verifies = d_cnt;
         if restarted {
             self.probes.inc("window_restart");
             if t - prev_ws == self.model.limits.window_ns {
@@ -475,25 +493,39 @@ impl<'a, B: Backend> Exec<'a, B> {
             self.probes.inc("clock_advanced_during_verification");
         }
 
-        // --- O-verify ---
+        // --- O-verify: how many verifier calls this push made ---
         let expect_dv = if decision.reaches_verify() { 1 } else { 0 };
+        let accepted = res.is_ok();
         if dv != expect_dv {
-            let class = match decision {
-                Decision::Full | Decision::Shape | Decision::Dummy => "admit:verified-before-stateless-rejection",
-                Decision::BucketCap | Decision::Duplicate => "admit:state-rejection-without-verification",
-                Decision::Budget => "budget:verified-with-exhausted-budget",
-                _ => "budget:verification-count",
-            };
-            return Err(viol(class, at, format!("push decided {:?} by the documented rules performed {dv} verifications, expected {expect_dv}", decision)));
+            let what = format!("push decided {:?} by the documented rules performed {dv} verifications, expected {expect_dv}", decision);
+            if dv > expect_dv {
+                match decision {
+                    Decision::Budget => findings.push(("budget:verified-with-exhausted-budget".into(), what)),
+                    Decision::Full | Decision::Shape | Decision::Dummy => findings.push(("admit:verified-before-stateless-rejection".into(), what)),
+                    _ => findings.push(("budget:more-verifications-than-charged".into(), what)),
+                }
+            } else {
+                // No verification although the rules reach it. Either the
+                // implementation believes the budget is exhausted (no charge, no
+                // restart: a disagreement about the window, C22's business), or
+                // a pool-state test answered before verification (C19).
+                let impl_budget_exhausted = d_cnt >= self.model.limits.max_verifies && d_ws == prev_ws && !accepted && elapsed && !matches!(decision, Decision::BucketCap | Decision::Duplicate);
+                if impl_budget_exhausted {
+                    findings.push(("budget:no-restart-after-full-window".into(), format!("{what}: the pool still reports an exhausted budget for the window starting at {prev_ws} at time {t}")));
+                } else if accepted {
+                    findings.push(("admit:admitted-without-verification".into(), what));
+                } else {
+                    findings.push(("admit:state-rejection-without-verification".into(), what));
+                }
+            }
         }
         // --- O-result ---
-        let accepted = res.is_ok();
         if accepted != (decision == Decision::Admit) {
-            return Err(viol("admit:result", at, format!("push returned {} but the documented rules give {:?}{}", if accepted { "Ok" } else { "Err" }, decision, res.as_ref().err().map(|e| format!(" (error: {e:#})")).unwrap_or_default())));
+            findings.push(("admit:result".into(), format!("push returned {} but the documented rules give {:?}{}", if accepted { "Ok" } else { "Err" }, decision, res.as_ref().err().map(|e| format!(" (error: {e:#})")).unwrap_or_default())));
         }
         if let (Ok(k), Some(p)) = (&res, &parsed) {
             if *k != p.key {
-                return Err(viol("admit:key", at, format!("push returned key {:?}, proof's own key is {:?}", k, p.key)));
+                findings.push(("admit:key".into(), format!("push returned key {:?}, proof's own key is {:?}", k, p.key)));
             }
         }
         if decision == Decision::Admit {
@@ -517,8 +549,7 @@ impl<'a, B: Backend> Exec<'a, B> {
         } else if decision == Decision::BucketCap {
             self.probes.inc("bucket_limit_rejects_valid_proof");
         }
-        let _ = t_ret;
-        Ok(Outcome::Push { accepted, decision })
+        Outcome::Push { accepted, decision }
     }
 
     /// O-state / O-custody: the dump equals the model.
@@ -540,44 +571,58 @@ impl<'a, B: Backend> Exec<'a, B> {
             }
         };
         // contents
-        let model_keys: Vec<BatchKey> = self.model.buckets.keys().copied().collect();
-        let dump_keys: Vec<BatchKey> = dump.buckets.iter().map(|b| b.key).collect();
-        if model_keys != dump_keys {
-            return Err(viol(content_class, at, format!("bucket keys differ: pool has {} buckets, rules give {}", dump_keys.len(), model_keys.len())));
-        }
         let base = self.base;
-        for db in &dump.buckets {
-            let mb = self.model.buckets.get_mut(&db.key).unwrap();
-            if mb.entries.len() != db.entries.len() {
-                return Err(viol(content_class, at, format!("bucket holds {} proofs, rules give {}", db.entries.len(), mb.entries.len())));
+        let messages = &self.messages;
+        let model = &mut self.model;
+        let content_finding: Option<Violation> = (|| {
+            let model_keys: Vec<BatchKey> = model.buckets.keys().copied().collect();
+            // an empty bucket that is still retained is C20's finding (inv:empty-bucket), not a custody one
+            let dump_keys: Vec<BatchKey> = dump.buckets.iter().filter(|b| !b.entries.is_empty()).map(|b| b.key).collect();
+            if model_keys != dump_keys {
+                return Some(viol(content_class, at, format!("bucket keys differ: pool has {} buckets, rules give {}", dump_keys.len(), model_keys.len())));
             }
-            for (me, de) in mb.entries.iter_mut().zip(&db.entries) {
-                if &self.messages[me.msg] != de.proof {
-                    return Err(viol(content_class, at, "bucket holds a different proof (or order) than the rules give".into()));
+            for db in dump.buckets.iter().filter(|b| !b.entries.is_empty()) {
+                let mb = model.buckets.get_mut(&db.key).unwrap();
+                if mb.entries.len() != db.entries.len() {
+                    return Some(viol(content_class, at, format!("bucket holds {} proofs, rules give {}", db.entries.len(), mb.entries.len())));
                 }
-                let adm = ns(de.admitted_at, base);
-                if me.admitted == u64::MAX {
-                    if adm < t_call || adm > t_ret {
-                        return Err(viol("admit:admission-time", at, format!("admission time {adm} outside the push's span [{t_call}, {t_ret}]")));
+                for (me, de) in mb.entries.iter_mut().zip(&db.entries) {
+                    if &messages[me.msg] != de.proof {
+                        return Some(viol(content_class, at, "bucket holds a different proof (or order) than the rules give".into()));
                     }
-                    me.admitted = adm;
-                } else if me.admitted != adm {
-                    return Err(viol(content_class, at, "admission time of a pooled proof changed".into()));
+                    let adm = ns(de.admitted_at, base);
+                    if me.admitted == u64::MAX {
+                        if adm < t_call || adm > t_ret {
+                            return Some(viol("admit:admission-time", at, format!("admission time {adm} outside the push's span [{t_call}, {t_ret}]")));
+                        }
+                        me.admitted = adm;
+                    } else if me.admitted != adm {
+                        return Some(viol(content_class, at, "admission time of a pooled proof changed".into()));
+                    }
+                }
+                let snap = db.last_snapshot_at.map(|i| ns(i, base));
+                if snap != mb.last_snapshot {
+                    let cls = if matches!(step, Step::Snapshot { .. }) { "custody:snapshot-mark" } else { content_class };
+                    return Some(viol(cls, at, format!("last snapshot time is {:?}, expected {:?}", snap, mb.last_snapshot)));
                 }
             }
-            let snap = db.last_snapshot_at.map(|i| ns(i, base));
-            if snap != mb.last_snapshot {
-                let cls = if matches!(step, Step::Snapshot { .. }) { "custody:snapshot-mark" } else { content_class };
-                return Err(viol(cls, at, format!("last snapshot time is {:?}, expected {:?}", snap, mb.last_snapshot)));
-            }
+            None
+        })();
+        let mut findings: Vec<(String, String)> = vec![];
+        if let Some(v) = content_finding {
+            findings.extend(v.findings);
         }
         // budget state
         let d_ws = ns(dump.verify_window_started, base);
         if d_ws != self.model.window_start || dump.verifies_in_window != self.model.verifies {
             let cls = if is_push { "budget:counter-state" } else { "budget:changed-by-non-push" };
-            return Err(viol(cls, at, format!("budget state is (window start {d_ws}, {} attempts), expected (window start {}, {} attempts)", dump.verifies_in_window, self.model.window_start, self.model.verifies)));
+            findings.push((cls.into(), format!("budget state is (window start {d_ws}, {} attempts), expected (window start {}, {} attempts)", dump.verifies_in_window, self.model.window_start, self.model.verifies)));
         }
-        Ok(())
+        if findings.is_empty() {
+            Ok(())
+        } else {
+            Err(Violation { at_step: at, findings })
+        }
     }
 
     /// O-invariants (C20): evaluated on the dump and the public API only,
